@@ -27,8 +27,11 @@ Open Scope string_scope.
 
 (* Python exception classes the path can raise; [EOther] is never produced by
    the model (the harness uses it for any other exception, so that it shows up
-   as a disagreement) *)
-Inductive err := ENotImplemented | EUnbound | EKey | EValue | EOther.
+   as a disagreement); [EScope] marks an input outside the modelled fragment
+   (a positive literal of a multi-part surface, which becomes a UNION; a
+   nested FILL): the theorems about successful runs say nothing there and the
+   harness never observes it *)
+Inductive err := ENotImplemented | EUnbound | EKey | EValue | EScope | EOther.
 Inductive res (A : Type) := Ok (a : A) | Err (e : err).
 Arguments Ok {A}. Arguments Err {A}.
 
@@ -51,10 +54,15 @@ Record scard := mkS {
   sc_name : string;      (* first field of the card, e.g. "*12" *)
   sc_mcnp : nat;         (* len(dic_surf_mcnp[k]): 1, or the facets of a macrobody *)
   sc_first : N;          (* descriptor class of the first TRIPOLI-4 sub-surface *)
-  sc_aux : list N        (* classes of the others (cone plane, macrobody facets) *)
+  sc_aux : list N;       (* classes of the others (cone plane, macrobody facets) *)
+  sc_sides : list bool   (* side of each sub-surface in the collection, first one
+                            included: true = +1 (the MCNP negative sense is the
+                            negative side of the TRIPOLI-4 surface); a missing
+                            item counts as true *)
 }.
 
-Record entry := mkE { e_flag : string; e_mcnp : nat; e_first : N; e_aux : list N }.
+Record entry := mkE { e_flag : string; e_mcnp : nat; e_first : N; e_aux : list N;
+                      e_sides : list bool }.
 Definition table := list (N * entry).
 
 (* d[k] = v on an insertion-ordered dict: replace in place, else append *)
@@ -80,7 +88,7 @@ Fixpoint parse_cards (cards : list scard) (d : table) : res table :=
       let (f, n) := split_flags (sc_name c) in
       match int_of_string n with
       | None => Err EValue
-      | Some k => parse_cards r (dict_set k (mkE f (sc_mcnp c) (sc_first c) (sc_aux c)) d)
+      | Some k => parse_cards r (dict_set k (mkE f (sc_mcnp c) (sc_first c) (sc_aux c) (sc_sides c)) d)
       end
   end.
 
@@ -190,30 +198,103 @@ Fixpoint renumber (dedup : bool) (nb : numbering) (ids : list N) : res (list N) 
       end
   end.
 
-Definition cell := (N * list Z)%type.           (* id, signed surface numbers *)
+(* CollectionDict.number_items, second result: key -> signed TRIPOLI-4 ids of
+   its sub-surfaces (first_side * key, then side * fresh id) *)
+Fixpoint apply_sides (ids : list N) (sides : list bool) : list Z :=
+  match ids with
+  | [] => []
+  | i :: r =>
+      let s := match sides with [] => true | s :: _ => s end in
+      (if s then Z.of_N i else Z.opp (Z.of_N i)) :: apply_sides r (tl sides)
+  end.
 
-Definition pluses (c : cell) : list N :=
-  map Z.to_N (filter (fun z => Z.ltb 0 z) (snd c)).
-Definition minuses (c : cell) : list N :=
-  map (fun z => Z.to_N (Z.opp z)) (filter (fun z => Z.ltb z 0) (snd c)).
+Fixpoint matching_from (t : table) (free : N) : list (N * list Z) :=
+  match t with
+  | [] => []
+  | (k, e) :: r =>
+      let (nb, free') := number_aux (e_aux e) free in
+      (k, apply_sides (k :: map fst nb) (e_sides e)) :: matching_from r free'
+  end.
+
+Definition matching_of (t : table) : list (N * list Z) :=
+  matching_from t (N.succ (max_key t)).
+
+(* a cell after TRCL / FILL: an intersection of parts, each part an
+   intersection of signed surface numbers.  A plain cell has one part; a cell
+   made by developing a FILL has two (the filled cell and the element of the
+   universe), which become two VolumeT4 joined by INTE *)
+Definition cell := (N * list (list Z))%type.
+
+(* pot_expand_surfs on a surface leaf: a single sub-surface keeps its place; a
+   negative literal of a collection is the intersection of the opposite
+   sub-surfaces (flattened into the enclosing intersection by pot_optimise); a
+   positive one is a union: outside the model *)
+Definition expand_lit (m : list (N * list Z)) (z : Z) : res (list Z) :=
+  match dict_get (Z.abs_N z) m with
+  | None => Err EKey                              (* matching[abs(surface)] *)
+  | Some [s] => Ok [if Z.ltb 0 z then s else Z.opp s]
+  | Some ids => if Z.ltb 0 z then Err EScope else Ok (map Z.opp ids)
+  end.
+
+Fixpoint expand_part (m : list (N * list Z)) (zs : list Z) : res (list Z) :=
+  match zs with
+  | [] => Ok []
+  | z :: r =>
+      match expand_lit m z, expand_part m r with
+      | Ok a, Ok b => Ok (a ++ b)%list
+      | Err e, _ => Err e
+      | _, Err e => Err e
+      end
+  end.
+
+Definition pluses_of (zs : list Z) : list N :=
+  map Z.to_N (filter (fun z => Z.ltb 0 z) zs).
+Definition minuses_of (zs : list Z) : list N :=
+  map (fun z => Z.to_N (Z.opp z)) (filter (fun z => Z.ltb z 0) zs).
 
 Definition memN (k : N) (l : list N) : bool := existsb (N.eqb k) l.
 
 (* VolumeT4.empty(): pluses & minuses *)
 Definition empty_vol (p m : list N) : bool := existsb (fun k => memN k m) p.
 
+(* the surface ids of one VolumeT4 after renumbering; None when
+   remove_empty_volumes deletes it *)
+Definition part_ids (dedup : bool) (nb : numbering) (m : list (N * list Z)) (part : list Z)
+  : res (option (list N)) :=
+  match expand_part m part with
+  | Err e => Err e
+  | Ok zs =>
+      match renumber dedup nb (pluses_of zs), renumber dedup nb (minuses_of zs) with
+      | Ok p, Ok mi => Ok (if empty_vol p mi then None else Some (p ++ mi)%list)
+      | Err e, _ => Err e
+      | _, Err e => Err e
+      end
+  end.
+
+(* the volumes of one converted cell: when one of them is deleted the others
+   go with it (INTE of a removed volume; a FICTIVE volume nobody uses) *)
+Fixpoint parts_ids (dedup : bool) (nb : numbering) (m : list (N * list Z))
+    (parts : list (list Z)) : res (option (list N)) :=
+  match parts with
+  | [] => Ok (Some [])
+  | p :: r =>
+      match part_ids dedup nb m p, parts_ids dedup nb m r with
+      | Ok o, Ok o' =>
+          Ok (match o, o' with Some a, Some b => Some (a ++ b)%list | _, _ => None end)
+      | Err e, _ => Err e
+      | _, Err e => Err e
+      end
+  end.
+
 (* the surface ids of the volumes that remain after renumbering and
    remove_empty_volumes, cell by cell *)
-Fixpoint used_ids (dedup : bool) (nb : numbering) (cells : list cell) : res (list N) :=
+Fixpoint used_ids (dedup : bool) (nb : numbering) (m : list (N * list Z))
+    (cells : list cell) : res (list N) :=
   match cells with
   | [] => Ok []
   | c :: r =>
-      match renumber dedup nb (pluses c), renumber dedup nb (minuses c) with
-      | Ok p, Ok m =>
-          match used_ids dedup nb r with
-          | Ok u => Ok (if empty_vol p m then u else (p ++ m ++ u)%list)
-          | Err e => Err e
-          end
+      match parts_ids dedup nb m (snd c), used_ids dedup nb m r with
+      | Ok o, Ok u => Ok (match o with Some ids => (ids ++ u)%list | None => u end)
       | Err e, _ => Err e
       | _, Err e => Err e
       end
@@ -246,7 +327,7 @@ Definition geometry (dedup : bool) (t : table) (cells : list cell) : res (list (
   | [] => Err EValue                      (* max() of an empty dictionary *)
   | _ =>
       let nb := number_items t in
-      match used_ids dedup nb cells with
+      match used_ids dedup nb (matching_of t) cells with
       | Err e => Err e
       | Ok [] => Err EValue               (* nothing left: max() of an empty set *)
       | Ok u => surf_lines nb (sort_uniq u)
@@ -325,12 +406,22 @@ Definition run (cfg : config) (cards : list scard) (cells : list cell) : res out
    with TRCL gets a copy of its surface under a fresh key (new_surf_key is
    incremented first), appended to dic_surf_mcnp and dic_surf_t4;
    transformation() hands the boundary flag of the original to the copy.  The
-   descriptor classes of the transformed copy come with the literal. *)
-Record lit := mkL { l_z : Z; l_cls : N; l_aux : list N }.
+   descriptor classes of the transformed copy and the sides of its
+   sub-surfaces come with the literal (the auxiliary plane of a one-sheet cone
+   is made anew from the transformed cone, so its side may change). *)
+Record lit := mkL { l_z : Z; l_cls : N; l_aux : list N; l_sides : list bool }.
 
 (* a cell card: converted or not (importance 0 cells stay in the cell
    dictionary and their TRCL is applied all the same), with TRCL or not *)
-Record tcell := mkC { tc_id : N; tc_conv : bool; tc_trcl : bool; tc_lits : list lit }.
+(* descriptor of a surface as moved by the TRCL of a cell: classes and sides
+   of its sub-surfaces *)
+Record desc := mkD { d_cls : N; d_aux : list N; d_sides : list bool }.
+
+Record tcell := mkC { tc_id : N; tc_conv : bool; tc_trcl : bool; tc_lits : list lit;
+                      tc_impl : list (N * desc) }.
+(* [tc_impl]: for the surface numbers j that some cell names as 1000 * tc_id + j
+   (MCNP: surface j as transformed by the TRCL of cell tc_id), the descriptor
+   of that transformed surface *)
 
 Definition sign_key (z : Z) (k : N) : Z :=
   if Z.ltb z 0 then Z.opp (Z.of_N k) else Z.of_N k.
@@ -343,7 +434,7 @@ Fixpoint trcl_lits (ls : list lit) (t : table) (key : N) : res (list Z * table *
       | None => Err EKey                      (* self.dic_surf_mcnp[abs(p_tree)] *)
       | Some e =>
           let k' := N.succ key in
-          match trcl_lits r (t ++ [(k', mkE (e_flag e) (e_mcnp e) (l_cls l) (l_aux l))])%list k' with
+          match trcl_lits r (t ++ [(k', mkE (e_flag e) (e_mcnp e) (l_cls l) (l_aux l) (l_sides l))])%list k' with
           | Ok (zs, t', key') => Ok (sign_key (l_z l) k' :: zs, t', key')
           | Err x => Err x
           end
@@ -362,15 +453,66 @@ Fixpoint apply_trcls (cs : list tcell) (t : table) (key : N)
         | Err x => Err x
         | Ok (zs, t', key') =>
             match apply_trcls r t' key' with
-            | Ok (cells, t'') => Ok ((tc_conv c, (tc_id c, zs)) :: cells, t'')
+            | Ok (cells, t'') => Ok ((tc_conv c, (tc_id c, [zs])) :: cells, t'')
             | Err x => Err x
             end
         end
       else
         match apply_trcls r t key with
-        | Ok (cells, t') => Ok ((tc_conv c, (tc_id c, map l_z (tc_lits c))) :: cells, t')
+        | Ok (cells, t') => Ok ((tc_conv c, (tc_id c, [map l_z (tc_lits c)])) :: cells, t')
         | Err x => Err x
         end
+  end.
+
+(* construct_volume_t4, first loop: a literal n >= 1000 that is not a surface
+   card stands for surface n mod 1000 as transformed by the TRCL of cell
+   n / 1000; it gets an entry of its own (appended; the boundary flag goes
+   with it) before anything else happens.  The loop runs over a Python set:
+   ascending order is assumed (the correspondence only runs decks where the
+   two orders agree). *)
+Fixpoint find_cell (i : N) (cs : list tcell) : option tcell :=
+  match cs with
+  | [] => None
+  | c :: r => if N.eqb i (tc_id c) then Some c else find_cell i r
+  end.
+
+Fixpoint implicit_pass (cs : list tcell) (ids : list N) (t : table) : res table :=
+  match ids with
+  | [] => Ok t
+  | n :: r =>
+      if N.ltb n 1000 then implicit_pass cs r t
+      else match dict_get n t with
+      | Some _ => implicit_pass cs r t            (* a surface card, or done *)
+      | None =>
+          match find_cell (N.div n 1000) cs with
+          | None => Err EKey                      (* mcnp_dict[cell_id] *)
+          | Some c =>
+              match dict_get (N.modulo n 1000) t with
+              | None => Err EKey                  (* dic_surface_mcnp[surf_id] *)
+              | Some e =>
+                  if negb (tc_trcl c) then        (* no TRCL: an untransformed copy *)
+                    implicit_pass cs r (t ++ [(n, e)])%list
+                  else match dict_get (N.modulo n 1000) (tc_impl c) with
+                  | None => Err EScope            (* no descriptor supplied *)
+                  | Some d =>
+                      implicit_pass cs r
+                        (t ++ [(n, mkE (e_flag e) (e_mcnp e) (d_cls d) (d_aux d)
+                                       (d_sides d))])%list
+                  end
+              end
+          end
+      end
+  end.
+
+Definition implicit_ids (cs : list tcell) : list N :=
+  sort_uniq (flat_map (fun c => map (fun l => Z.abs_N (l_z l)) (tc_lits c)) cs).
+
+(* the surface dictionary and the cells once every copy has been made *)
+Definition expand_table (cs : list tcell) (t : table) : res (list (bool * cell) * table) :=
+  match implicit_pass cs (implicit_ids cs) t with
+  | Err e => Err e
+  | Ok [] => Err EValue                  (* max() of an empty dictionary *)
+  | Ok t1 => apply_trcls cs t1 (N.succ (max_key t1))
   end.
 
 Definition converted (cells : list (bool * cell)) : list cell :=
@@ -380,9 +522,8 @@ Definition converted (cells : list (bool * cell)) : list cell :=
 Definition run_t (cfg : config) (cards : list scard) (tcells : list tcell) : res output :=
   match parse_cards cards [] with
   | Err e => Err e
-  | Ok [] => Err EValue
   | Ok t =>
-      match apply_trcls tcells t (N.succ (max_key t)) with
+      match expand_table tcells t with
       | Err e => Err e
       | Ok (cells, t') => finish cfg t' (converted cells)
       end
